@@ -137,6 +137,12 @@ fn build(tier: Tier) -> Vec<Scenario> {
             out.push(s);
         }
     }
+    if tier == Tier::Quick {
+        deepen(&mut out, &|n| {
+            n.ends_with("in[1, 2, 3]/iter/local2-fixed2-cap0")
+                && ["C04/chain/", "C04/groupby/", "C04/join-hash/", "C04/two-sinks/"].iter().any(|p| n.starts_with(p))
+        });
+    }
     // unbounded exploration with sleep sets (every Mazurkiewicz trace) of the smallest jobs
     if tier == Tier::Thorough || std::env::var("NV_UNBOUNDED").is_ok() {
         for (name, prog, input) in [
